@@ -147,6 +147,9 @@ type c2Exec struct {
 	token  string
 	sacr   bool // sacrificial instance still exists
 	gates  int
+	// exception modes only: committed versions that accepted a write.  What they and their descendants hold is no
+	// longer fixed, and DVID's in-memory copies of a descendant head do not follow writes to its ancestors
+	written map[int]bool
 	laterM int
 }
 
@@ -198,6 +201,16 @@ func (e *c2Exec) verify(after string) (*drv.Violation, error) {
 	for _, v := range e.x.D.Sorted() {
 		want := e.snaps[v]
 		if want == nil {
+			continue
+		}
+		exempt := false
+		for a := range e.x.D.AncestorsOrSelf(v) {
+			if a != v && e.written[a] {
+				exempt = true // full-write / admin mode changed an ancestor: the version's inherited content is not fixed
+			}
+		}
+		if exempt {
+			e.w.Stats.Probe("version-below-a-version-written-in-exception-mode-not-compared")
 			continue
 		}
 		got, err := e.snapVersion(v)
@@ -514,6 +527,10 @@ func (c C02) gate(e *c2Exec, op drv.Op) (*drv.Violation, error) {
 			// the documented exceptions: nothing to demand beyond "no crash"
 			if ok2xx {
 				w.Stats.Probe("exception-mode-write-accepted")
+				if e.written == nil {
+					e.written = map[int]bool{}
+				}
+				e.written[cv] = true
 				// the committed version (and what its descendants inherit) legitimately changed:
 				// refresh everything we compare against
 				for _, v2 := range committed {
